@@ -88,7 +88,7 @@ def run(rep: Report) -> None:
                 ok, detail = False, f"path {p.path} raises or has no flag-off counterpart ({p.raised or (q and q.raised)})"
                 break
             want = transform(q.outputs, cfg.flags)
-            nz = M.make_normalizer(cfg)
+            nz = M.make_normalizer(cfg, with_domain=False)
             env = E.Env(p.n1)
             mapping, _ = M.assumption_substitution(p.assumptions, nz)
             for role, vs in want.items():
